@@ -32,7 +32,7 @@ def cls(t):
     t = str(t)
     if not t or t == "—": return None
     if t.upper().startswith("MISSED") or t.startswith("**missed**"): return "missed"
-    if "no-failing-input-found" in t: return "nofi"
+    if "no-failing-input-found" in t.split("(kind failing-input)")[0] and "kind failing-input" not in t: return "nofi"
     return "input"
 first, final = {"input": 0, "nofi": 0, "missed": 0}, {"input": 0, "nofi": 0, "missed": 0}
 for d in sorted(glob.glob(os.path.join(root, "seeded", "C*-*"))):
@@ -41,7 +41,7 @@ for d in sorted(glob.glob(os.path.join(root, "seeded", "C*-*"))):
     m = json.load(open(mp)); c = m.get("confirmed_by_main_session", {})
     f = cls(c.get("check_result_first_run") or c.get("check_result", "")) or "input"
     a = m.get("check_result_after_strengthening") or c.get("check_result_after_strengthening")
-    if isinstance(a, dict): a = "; ".join("%s: %s" % kv for kv in a.items())
+    if isinstance(a, dict): a = a.get("result") or "; ".join("%s: %s" % kv for kv in a.items())
     first[f] += 1
     g = cls(a) if a else None
     final[g or f] += 1
